@@ -155,8 +155,8 @@ def oracle_table(e, info):
   """Returns a list of (kind, description) for one summary table; empty when it is an exact group-by."""
   sid, src_id, gb, leftover = info
   if leftover:
-    # known finding C12-stale-groupby-column: the table kept the data column of a group-by source column that
-    # was removed; its rows are still one per old value.  Everything else about it follows from that.
+    # finding C12-stale-groupby-column (fixed in /repo by cda1c6e): the table kept the data column of a group-by
+    # source column that was removed; its rows are still one per old value.  Everything else follows from that.
     return [('stale-groupby-column', '%s: data column(s) %r are not group-by columns any more (their source column '
              'is gone) but the table and its %d row(s) are still there, grouped by %r'
              % (sid, leftover, len(e.fetch_table(sid).row_ids), [c for (c, _s, _t) in gb]))]
@@ -854,7 +854,7 @@ SCRIPTS = collections.OrderedDict([
   ]),
 ])
 
-# the minimal witnesses of the known findings (also entries of known_findings.json)
+# the minimal witnesses of the known and fixed findings (also entries of known_findings.json)
 WITNESSES = {
   'helper-raises': {'history': [
     [['AddTable', 'T', _t([('A', 'Any')])]],
@@ -897,7 +897,8 @@ ASSUMPTIONS = ['exactness (C12_settled_exact_partial) assumes that no helper for
                'readable, scalar ones hashable); the two refuted statements are the known finding C12-helper-raises',
                'the model assumes a row added by the helper formula stores the key that was looked up (fails for tuples in a '
                'scalar column: known finding C12-tuple-key; such cases are skipped and counted) and that the group-by columns '
-               'of the summary table exist in the source (otherwise: known finding C12-stale-groupby-column)',
+               'of the summary table exist in the source (otherwise: finding C12-stale-groupby-column, fixed by cda1c6e; its '
+               'witness stays in the corpus and the oracle kind stale-groupby-column is an ordinary violation)',
                'the engine re-evaluates only dirty helper cells: the theorems are about full re-evaluation (settle_loop); '
                'C12_incremental_is_full carries them over when the entries that are not re-evaluated are up to date '
                '(clean_valid); the number of recorded cases where full re-evaluation gives another table is reported '
@@ -917,8 +918,9 @@ LEVEL_TEXT = ('Kernel-checked: whenever the settle loop of apply_user_actions en
               'bundle.')
 LEVEL_NOTE = ('Kernel strength: metadata handling of summary.py (update_summary_section, table naming), the lookup '
               'invalidation machinery that decides which helper cells are dirty, and value conversion are environment; their '
-              'effects are taken from the run.  Three defects of the unchanged tree are known findings (helper formula '
-              'raises; tuple keys; stale summary table after removing a group-by source column and regrouping in one bundle).')
+              'effects are taken from the run.  Two defects of the tree are known findings (helper formula raises; tuple '
+              'keys); a third (stale summary table after removing a group-by source column and regrouping in one bundle) was '
+              'repaired in /repo by cda1c6e and its witness is replayed on every run.')
 
 
 def plan(ctx):
@@ -944,9 +946,10 @@ def collect(ctx):
   tie_ok = [rec is not None]
   cases, issues = [], []
   try:
-    runs = [(label, seed, nb, direct, None) for (label, seed, nb, direct) in plan(ctx)]
+    # the witnesses of the known and of the fixed findings run first (a fixed one that fails again is a VIOLATION)
+    runs = [('witness:' + name, 0, 0, False, w['history'] + [w['bundle']]) for name, w in WITNESSES.items()]
     runs += [('script:' + name, 0, 0, False, script) for name, script in SCRIPTS.items()]
-    runs += [('witness:' + name, 0, 0, False, w['history'] + [w['bundle']]) for name, w in WITNESSES.items()]
+    runs += [(label, seed, nb, direct, None) for (label, seed, nb, direct) in plan(ctx)]
     for (label, seed, nb, direct, script) in runs:
       stream = label.split(':')[0]
       try:
